@@ -45,6 +45,14 @@ def loc_discipline(ctx, r):
         sets = {q.show(x["a"]): q.show(x["b"]) for x in q.walk(ul["body"]) if x["k"] == "Assign"}
         ok = sets.get("st.curr_file") == "file_id" and sets.get("st.curr_lineno") == "line_no" and any(x["k"] == "MethodCall" and x["m"] == "line_number_for_index" and q.show(x["args"][0]) == "location.lo" for x in q.walk(ul["body"]))
         r.ob(ok, "translate_bytecode.rs:update_current_file_and_lineno", TB, ul["l"], f"the current line must be the line of the node's start offset in the node's file ({sets})", sample="update_current_file_and_lineno: line_number_for_index(location.lo)")
+        # both are set for every node: an early exit keeps the file and line of whatever was translated before,
+        # and a shortcut keyed on an offset alone confuses positions of different files
+        top = ul["body"]["stmts"]
+        exits = [x for x in q.walk(ul["body"]) if x["k"] == "Return"]
+        uncond = {q.show(s_["e"]["a"]) for s_ in top if s_["k"] == "ExprStmt" and s_["e"]["k"] == "Assign"}
+        r.ob(not exits and {"st.curr_file", "st.curr_lineno"} <= uncond, "translate_bytecode.rs:update_current_file_and_lineno:not-set-on-every-path", TB, exits[0]["l"] if exits else ul["l"],
+             f"update_current_file_and_lineno does not set both the file and the line for every node (early exits: {len(exits)}; set unconditionally: {sorted(uncond)}): instructions of a function generated right after one from another file keep that file's name and line in run-time tracebacks",
+             sample="update_current_file_and_lineno: file and line set unconditionally for every node")
     # (3) tables are built after optimisation, before assembly, over the same lines
     tr = q.find_fn(t, "translate", impl_ty="Translator")
     ta = q.find_fn(t, "translate_to_assembly", impl_ty="Translator")
@@ -185,3 +193,63 @@ def loc_discipline(ctx, r):
         ok = it == "std::iter::once(&self.location).chain(self.trace.iter().rev())"
         r.ob(ok, "vm.rs:VmError::fmt:trace-order", VM, f["l"], f"the traceback must print the failure location first and then the call sites innermost first (the stored trace reversed exactly once); it iterates `{it}`", sample="traceback: once(location).chain(trace.iter().rev())")
     r.count("location-discipline sites", n, 12, TB)
+
+
+LEX = "abra_core/src/parse/lexer.rs"
+ASTF = "abra_core/src/ast.rs"
+PARSE = "abra_core/src/parse.rs"
+
+
+@rule("UNITS", ["C33", "C32"], "source positions have one unit everywhere: the lexer counts chars, the line table, diagnostics and the end-of-file token count bytes, so spans are converted where they leave the lexer")
+def units(ctx, r):
+    lex = ctx.file_items(LEX)
+    astf = ctx.file_items(ASTF)
+    par = ctx.file_items(PARSE)
+    if lex is None or astf is None or par is None:
+        r.missing("lexer.rs / ast.rs / parse.rs")
+        return
+    st = q.find_struct(lex, "Lexer")
+    if st is None:
+        r.missing("struct Lexer", LEX)
+        return
+    char_based = any(fl["ty"].replace(" ", "") == "Vec<char>" for fl in st["fields"])
+    # consumers
+    ls = q.find_fn(astf, "line_starts")
+    byte_lines = ls is not None and any(x["k"] == "MethodCall" and x["m"] in ("match_indices", "char_indices", "bytes", "find") for x in q.walk(ls["body"]))
+    char_lines = ls is not None and any(x["k"] == "MethodCall" and x["m"] == "chars" for x in q.walk(ls["body"]))
+    eof_bytes = False
+    for f, _ in q.iter_items(par):
+        if f["k"] == "Fn" and f.get("body") is not None:
+            for x in q.walk(f["body"]):
+                if x["k"] == "Local" and "file_len" in q.pat_bindings(x["pat"]) and x.get("init") is not None:
+                    t = q.show(x["init"]) + "".join(q.show(y) for y in q.walk(x["init"]) if y["k"] == "MethodCall")
+                    eof_bytes = "source.len()" in t.replace(" ", "")
+    r.ob(ls is not None, "ast.rs:line_starts", ASTF, 0, "line table", sample=f"line table in {'bytes' if byte_lines else 'chars' if char_lines else '?'}; EOF token in {'bytes' if eof_bytes else '?'}; lexer counts {'chars' if char_based else 'bytes'}")
+    consumers_bytes = byte_lines and not char_lines
+    if not char_based:
+        r.ob(consumers_bytes, "lexer.rs:Lexer:unit", LEX, st["l"], "a byte-based lexer needs a byte-based line table")
+        return
+    # producer: char-based lexer, byte-based consumers -> conversion at the exit
+    it = q.find_fn(lex, "into_tokens", impl_ty="Lexer")
+    conv = it is not None and any(x["k"] == "MethodCall" and x["m"] == "len_utf8" for x in q.walk(it["body"])) and any(
+        x["k"] in ("Assign",) and q.show(x["a"]).endswith(("span.lo", "span.hi")) for x in q.walk(it["body"])) 
+    n_assign = sum(1 for x in q.walk(it["body"]) if x["k"] == "Assign" and q.show(x["a"]).endswith(("span.lo", "span.hi"))) if it else 0
+    r.ob((not consumers_bytes) or (conv and n_assign >= 2), "lexer.rs:into_tokens:spans-leave-in-chars", LEX, it["l"] if it else st["l"],
+         "the lexer indexes a Vec<char> and builds spans from those indices, while the line table (match_indices), codespan labels and the end-of-file token (source.len()) are byte offsets: after any non-ASCII text every diagnostic is drawn too far left - possibly inside a multi-byte character - and run-time errors name an earlier line. Both ends of every span must be converted with len_utf8 where tokens leave the lexer",
+         sample="into_tokens: span.lo and span.hi converted through a len_utf8 prefix table")
+    # spans handed to diagnostics directly from the lexer must go through a byte conversion too
+    n_direct = 0
+    for f, _ in q.iter_items(lex):
+        if f["k"] != "Fn" or f.get("body") is None:
+            continue
+        helpers = {b for l in q.walk(f["body"]) if l["k"] == "Local" and l.get("init") is not None and l["init"]["k"] == "Closure" and any(y["k"] == "MethodCall" and y["m"] == "len_utf8" for y in q.walk(l["init"])) for b in q.pat_bindings(l["pat"])}
+        for x in q.walk(f["body"]):
+            if x["k"] == "MethodCall" and x["m"] == "push" and q.show(x["recv"]).endswith(".errors"):
+                for sp in q.walk(x):
+                    if sp["k"] == "Struct" and str(sp.get("p")) == "Span":
+                        n_direct += 1
+                        ok = all(any((y["k"] == "Call" and y["f"]["k"] == "Path" and y["f"]["p"] in helpers) or (y["k"] == "MethodCall" and y["m"] == "byte_offset") for y in q.walk(fl["e"])) for fl in sp.get("fields", []))
+                        r.ob(ok, f"lexer.rs:{f['name']}:error-span-in-chars", LEX, sp["l"],
+                             f"{f['name']} reports an error with a span built from raw positions ({', '.join(q.show(fl['e']) for fl in sp.get('fields', []))}): those count chars (and may be relative to a string literal), diagnostics read bytes from the start of the file",
+                             sample=f"{f['name']}: error span converted to file byte offsets")
+    r.count("error spans created in the lexer", n_direct, 2, LEX)
